@@ -8,7 +8,7 @@
  *
  *   plan   := entry (';' entry)*
  *   entry  := KEY '=' action (',' action)*
- *   action := exit:N | sig:N | out:HEX | err:HEX | block:PATH | ignore:N | touch:PATH
+ *   action := exit:N | sig:N | out:HEX | err:HEX | block:PATH | ignore:N | trap:N | report:PATH | touch:PATH
  *
  * An entry applies when KEY occurs in any argv element after argv[0] or in the
  * script file. The first matching entry wins. Default: exit 0.
@@ -74,6 +74,12 @@ static void msleep(void) {
   nanosleep(&ts, NULL);
 }
 
+static volatile sig_atomic_t got[65];
+
+static void on_signal(int n) {
+  if (n >= 0 && n < 65) got[n] = 1;
+}
+
 static void run_action(char *a) {
   if (!strncmp(a, "exit:", 5)) {
     fflush(NULL);
@@ -98,6 +104,15 @@ static void run_action(char *a) {
     free(buf);
   } else if (!strncmp(a, "ignore:", 7)) {
     signal(atoi(a + 7), SIG_IGN);
+  } else if (!strncmp(a, "trap:", 5)) {
+    signal(atoi(a + 5), on_signal);
+  } else if (!strncmp(a, "report:", 7)) {
+    FILE *f = fopen(a + 7, "w");
+    if (f) {
+      for (int i = 1; i < 65; i++)
+        if (got[i]) fprintf(f, "%d\n", i);
+      fclose(f);
+    }
   } else if (!strncmp(a, "touch:", 6)) {
     int fd = open(a + 6, O_CREAT | O_WRONLY, 0644);
     if (fd >= 0) close(fd);
